@@ -4,6 +4,7 @@
    Misc/HlogHeap.v (slices over backing arrays; NewHandler's With().Logger() copy
    and the field handlers' UpdateContext appends). *)
 From Verif Require Import Base.Prelude Misc.Hlog Misc.HlogNest Misc.HlogHeap Proofs.HlogP Proofs.HlogNestP.
+From Verif Require Base.GoSem Base.GoEff Base.GoExt Gen.ProxySrc Proofs.SrcProxyP.
 
 (* ---------------- what AccessHandler reports ---------------- *)
 Open Scope Z_scope.
@@ -139,6 +140,44 @@ Example C18_ex_copy_is_needed :
   request_context s 1 = Some [123; 34; 98; 34; 58; 49; 44; 66; 66]%N.
 Proof. exact without_copy_requests_interfere. Qed.
 
+(* ---- the source of the response proxy: basicWriter's WriteHeader, Write, maybeWriteHeader, Status and BytesWritten
+   (hlog/internal/mutil/writer_proxy.go) are re-translated by srcgen on every run (Gen/ProxySrc.v) and equal the model:
+   the record of the struct's fields is abstracted to the model's [proxy] by [SrcProxyP.abs]; the embedded
+   ResponseWriter and the tee are opaque - the calls made on them are logged and what they answer is the environment
+   [ans], for every [ans]. ---- *)
+Open Scope Z_scope.
+Theorem C18_source_write_header : forall (ans : nat -> GoExt.oval) b code,
+  exists b', ProxySrc.WriteHeader ans b code = GoSem.Ok (tt, b') /\
+    SrcProxyP.abs b' = fst (write_header (SrcProxyP.abs b) code) /\
+    ProxySrc.basicWriter_calls b' = ProxySrc.basicWriter_calls b ++ SrcProxyP.header_calls (snd (write_header (SrcProxyP.abs b) code)) /\
+    ProxySrc.basicWriter_ResponseWriter b' = ProxySrc.basicWriter_ResponseWriter b.
+Proof. exact SrcProxyP.WriteHeader_src. Qed.
+
+(* Write: the implicit 200 header if none was sent, ONE Write on the underlying writer, whose answer (n, err) becomes
+   the model's outcome; n is added to the byte count whatever err is; with a tee, buf[:n] goes to it (premise: the
+   underlying writer's n is within the buffer, otherwise the Go code panics slicing) *)
+Theorem C18_source_write : forall (ans : nat -> GoExt.oval) b buf,
+  let hdr := snd (write_header (SrcProxyP.abs b) 200) in
+  let k := (length (ProxySrc.basicWriter_calls b) + length (SrcProxyP.header_calls hdr))%nat in
+  let n := GoExt.oval_int (GoExt.oval_fst (ans k)) in
+  let err := GoExt.oval_err (GoExt.oval_snd (ans k)) in
+  (ProxySrc.basicWriter_tee b = true -> 0 <= n <= GoSem.len buf) ->
+  exists b' err', ProxySrc.Write ans b buf = GoSem.Ok ((n, err'), b') /\
+    SrcProxyP.abs b' = fst (write (SrcProxyP.abs b) (GoSem.len buf) {| o_n := n; o_err := negb (GoEff.err_isnil err) |}) /\
+    ProxySrc.basicWriter_calls b' = ProxySrc.basicWriter_calls b ++ SrcProxyP.header_calls hdr ++
+       [GoExt.OCall SrcProxyP.fRW SrcProxyP.mWrite [GoExt.OVBytes buf]] ++
+       (if ProxySrc.basicWriter_tee b then [GoExt.OCall SrcProxyP.fTee SrcProxyP.mWrite [GoExt.OVBytes (GoSem.slice buf 0 n)]] else []) /\
+    err' = (if ProxySrc.basicWriter_tee b then (if GoEff.err_isnil err then GoExt.oval_err (GoExt.oval_snd (ans (S k))) else err) else err).
+Proof. exact SrcProxyP.Write_src. Qed.
+
+Theorem C18_source_status_bytes : forall b,
+  ProxySrc.Status b = GoSem.Ok (p_code (SrcProxyP.abs b), b) /\ ProxySrc.BytesWritten b = GoSem.Ok (p_bytes (SrcProxyP.abs b), b).
+Proof. intros b. split; reflexivity. Qed.
+
+Theorem C18_source_translated_set :
+  length ProxySrc.translated_functions = 5%nat /\ length ProxySrc.skipped_functions = 0%nat.
+Proof. exact SrcProxyP.proxy_counts. Qed.
+
 Print Assumptions C18_status_bytes.
 Print Assumptions C18_status_bytes_wrap.
 Print Assumptions C18_nested_status_bytes.
@@ -147,3 +186,7 @@ Print Assumptions C18_wrap_writer_selection.
 Print Assumptions C18_request_isolation.
 Print Assumptions C18_request_isolation_complete.
 Print Assumptions C18_base_unchanged.
+Print Assumptions C18_source_write_header.
+Print Assumptions C18_source_write.
+Print Assumptions C18_source_status_bytes.
+Print Assumptions C18_source_translated_set.
